@@ -41,9 +41,9 @@ Inductive prim : st -> st -> Prop :=
       queue s = it :: q' -> pop_clock_ok s it newclk bumped ->
       prim s (pop_state s it q' newclk bumped).
 
-Inductive steps : st -> st -> Prop :=
-  | steps_refl s : steps s s
-  | steps_snoc s s' s'' : steps s s' -> prim s' s'' -> steps s s''.
+Inductive steps (s : st) : st -> Prop :=
+  | steps_refl : steps s s
+  | steps_snoc s' s'' : steps s s' -> prim s' s'' -> steps s s''.
 
 Lemma steps_one s s' : prim s s' -> steps s s'.
 Proof. intro H. eapply steps_snoc; [apply steps_refl | exact H]. Qed.
@@ -66,10 +66,13 @@ Definition ostate (o : outcome) : st :=
 Lemma add_log_steps s e : quiet s e -> steps s (add_log s e).
 Proof. auto with vt. Qed.
 
+Lemma steps_log s s' e : steps s s' -> quiet s' e -> steps s (add_log s' e).
+Proof. intros H Q. eapply steps_snoc; [exact H | apply P_log; exact Q]. Qed.
+
 Lemma add_notes_steps ns : forall s, steps s (add_notes s ns).
 Proof.
   induction ns as [|n t IH]; intro s; simpl; [apply steps_refl|].
-  eapply steps_trans; [apply add_log_steps; exact I | apply IH].
+  apply steps_trans with (add_log s (ENote n)); [apply add_log_steps; exact I | apply IH].
 Qed.
 
 Lemma dispose_per_steps s pid : steps s (dispose_per s pid).
@@ -89,7 +92,7 @@ Proof.
     + apply steps_one, P_clock. apply Z.ltb_ge in E. lia.
   - apply add_log_steps; exact I.
   - assert (steps s (add_log (add_log s (ERaise e)) (EHandler e))).
-    { eapply steps_snoc; [apply add_log_steps; exact I | apply P_log; exact I]. }
+    { apply steps_log; [apply steps_log; [apply steps_refl | exact I] | exact I]. }
     destruct v; assumption.
   - apply add_log_steps; exact I.
   - eapply steps_snoc; [apply steps_one, P_pers | apply P_enq].
@@ -124,11 +127,10 @@ Proof.
   - eapply steps_trans; [|apply resched_disposed_steps].
     eapply steps_trans; [exact H1 | apply add_notes_steps].
   - eapply steps_trans; [|apply dispose_per_steps].
-    eapply steps_snoc; [|apply P_log; exact I].
+    apply steps_log; [|exact I].
     eapply steps_trans; [exact H1 | apply add_notes_steps].
   - assert (H2 : steps s (add_log (add_log (add_notes (add_log s (ETick pid stt (clock s))) ns) (ERaise e)) (EHandler e))).
-    { eapply steps_snoc; [|apply P_log; exact I].
-      eapply steps_snoc; [|apply P_log; exact I].
+    { apply steps_log; [apply steps_log|]; try exact I.
       eapply steps_trans; [exact H1 | apply add_notes_steps]. }
     destruct v; simpl.
     + eapply steps_trans; [exact H2 | apply resched_disposed_steps].
@@ -224,9 +226,9 @@ Proof.
   induction cs as [|cmd t IH]; intro s; simpl; [apply steps_refl|].
   pose proof (step_t_steps c fuel s cmd) as H.
   destruct (step_t c fuel s cmd) as [s'|e s'|s'|s']; simpl in *; try exact H.
-  - eapply steps_trans; [|apply IH]. eapply steps_snoc; [exact H | apply P_log; reflexivity].
+  - eapply steps_trans; [|apply IH]. apply steps_log; [exact H | reflexivity].
   - eapply steps_trans; [|apply IH].
-    eapply steps_snoc; [eapply steps_snoc; [exact H | apply P_log; exact I] | apply P_log; reflexivity].
+    apply steps_log; [apply steps_log; [exact H | exact I] | reflexivity].
 Qed.
 
 (* every state a history can produce satisfies every invariant of [prim] *)
@@ -234,3 +236,887 @@ Theorem run_invariant (I : st -> Prop) :
   (forall s s', I s -> prim s s' -> I s') ->
   forall c fuel s cs, I s -> I (state_of (run c fuel s cs)).
 Proof. intros HP c fuel s cs. apply (steps_inv I HP). apply run_steps. Qed.
+
+(* ================================================================== *)
+(* Part B.  Invariants                                                  *)
+
+(* field lemmas for cancel_id (the only primitive defined with an [if]) *)
+Lemma cancel_id_fields s r :
+  clock (cancel_id s r) = clock s /\ queue (cancel_id s r) = queue s /\ count (cancel_id s r) = count s /\
+  enabled (cancel_id s r) = enabled s /\ next_id (cancel_id s r) = next_id s /\
+  pers (cancel_id s r) = pers s /\ npops (cancel_id s r) = npops s.
+Proof. unfold cancel_id. destruct (r <? next_id s)%nat; simpl; repeat split. Qed.
+
+Fixpoint pops (l : list event) : list poprec :=
+  match l with
+  | [] => []
+  | EPop r :: t => r :: pops t
+  | _ :: t => pops t
+  end.
+
+Lemma cancel_id_pops s r : pops (log (cancel_id s r)) = pops (log s).
+Proof. unfold cancel_id. destruct (r <? next_id s)%nat; reflexivity. Qed.
+
+Lemma quiet_pops s e l : quiet s e -> pops (e :: l) = pops l.
+Proof. destruct e; simpl; intros; tauto || reflexivity. Qed.
+
+Lemma add_log_pops s e : quiet s e -> pops (log (add_log s e)) = pops (log s).
+Proof. intro H. simpl. apply (quiet_pops s e _ H). Qed.
+
+(* ---- B1: the queue is sorted by (due time, scheduling order) -------- *)
+
+(* logical order: due time, then the order of the schedule calls *)
+Definition klt (x y : item) : Prop :=
+  i_due x < i_due y \/ (i_due x = i_due y /\ (i_id x < i_id y)%nat).
+
+Lemma klt_trans x y z : klt x y -> klt y z -> klt x z.
+Proof. unfold klt. intros [H|[H H']] [G|[G G']]; lia. Qed.
+
+Lemma In_insert x q : forall z, In z (insert x q) <-> z = x \/ In z q.
+Proof.
+  induction q as [|y t IH]; intro z; simpl.
+  - intuition.
+  - destruct (key_lt x y); simpl; [intuition|]. rewrite IH. intuition.
+Qed.
+
+(* PriorityQueue.enqueue of an entry whose count and id are larger than all
+   those present (count only grows while the queue is non-empty) keeps the
+   (due, id) order: the tuple comparison of heapq realises exactly FIFO among
+   equal due times. *)
+Lemma insert_sorted x : forall q,
+  Forall (fun y => i_cnt y < i_cnt x /\ (i_id y < i_id x)%nat) q ->
+  StronglySorted klt q -> StronglySorted klt (insert x q).
+Proof.
+  induction q as [|y t IH]; intros HF HS; simpl.
+  - constructor; constructor.
+  - inversion HF as [|? ? [Hc Hi] HF']; subst. inversion HS as [|? ? HS' Hy]; subst.
+    unfold key_lt. destruct (i_due x =? i_due y) eqn:E1.
+    + apply Z.eqb_eq in E1. assert (E2 : i_cnt x <? i_cnt y = false) by (apply Z.ltb_ge; lia).
+      rewrite E2. constructor; [apply IH; assumption|].
+      apply Forall_forall. intros z Hz. apply In_insert in Hz. destruct Hz as [->|Hz].
+      * right. split; [lia | assumption].
+      * rewrite Forall_forall in Hy. auto.
+    + apply Z.eqb_neq in E1. destruct (i_due x <? i_due y) eqn:E2.
+      * apply Z.ltb_lt in E2. constructor; [assumption|].
+        constructor; [left; assumption|].
+        apply Forall_forall. intros z Hz. rewrite Forall_forall in Hy.
+        apply klt_trans with y; [left; assumption | auto].
+      * apply Z.ltb_ge in E2. constructor; [apply IH; assumption|].
+        apply Forall_forall. intros z Hz. apply In_insert in Hz. destruct Hz as [->|Hz].
+        -- left. lia.
+        -- rewrite Forall_forall in Hy. auto.
+Qed.
+
+Definition item_ok (s : st) (y : item) : Prop :=
+  i_cnt y < count s /\ (i_id y < next_id s)%nat /\ (i_born y <= npops s)%nat /\ i_sclk y <= clock s.
+
+Definition Inv1 (s : st) : Prop :=
+  StronglySorted klt (queue s) /\ Forall (item_ok s) (queue s).
+
+Lemma pop_clock_ge s it newclk bumped : pop_clock_ok s it newclk bumped -> clock s <= newclk.
+Proof.
+  unfold pop_clock_ok. destruct (clock s <? i_due it) eqn:E.
+  - apply Z.ltb_lt in E. intros [-> _]. lia.
+  - intros [[_ ->]|[_ [k ->]]]; [lia|]. destruct k; simpl; lia.
+Qed.
+
+Lemma pop_clock_due s it newclk bumped : pop_clock_ok s it newclk bumped -> i_due it <= newclk.
+Proof.
+  unfold pop_clock_ok. destruct (clock s <? i_due it) eqn:E.
+  - intros [-> _]. lia.
+  - apply Z.ltb_ge in E. intros [[_ ->]|[_ [k ->]]]; [lia|]. destruct k; simpl; lia.
+Qed.
+
+Lemma inv1_init c0 : Inv1 (init c0).
+Proof. split; simpl; constructor. Qed.
+
+Lemma inv1_prim s s' : Inv1 s -> prim s s' -> Inv1 s'.
+Proof.
+  intros [HS HF] HP. inversion HP; subst; clear HP.
+  - (* enqueue *) split; simpl.
+    + apply insert_sorted; [|assumption]. simpl.
+      eapply Forall_impl; [|exact HF]. intros y (A & B & _). split; assumption.
+    + apply Forall_forall. intros z Hz. apply In_insert in Hz. destruct Hz as [->|Hz].
+      * unfold item_ok; simpl. repeat split; lia.
+      * rewrite Forall_forall in HF. destruct (HF z Hz) as (A & B & C & D).
+        unfold item_ok; simpl. repeat split; lia.
+  - destruct (cancel_id_fields s r) as (A & B & C & D & E & F & G).
+    unfold Inv1, item_ok. rewrite A, B, C, E, G. split; assumption.
+  - split; assumption.
+  - split; [assumption|]. simpl. eapply Forall_impl; [|exact HF].
+    unfold item_ok; simpl. intros y (A & B & C & D). repeat split; lia.
+  - split; assumption.
+  - split; assumption.
+  - rewrite H in HS, HF. inversion HS; subst. inversion HF; subst.
+    pose proof (pop_clock_ge _ _ _ _ H0) as Hge.
+    split; simpl; [assumption|].
+    apply Forall_forall. intros z Hz. rewrite Forall_forall in H6. destruct (H6 z Hz) as (A & B & C & D).
+    unfold item_ok; simpl. destruct q' as [|y q'']; [destruct Hz|]. repeat split; lia.
+Qed.
+
+(* ---- B2: run order --------------------------------------------------- *)
+
+Definition rlt (a : poprec) (b : item) : Prop :=
+  r_due a < i_due b \/ (r_due a = i_due b /\ (r_id a < i_id b)%nat).
+Definition plt (a b : poprec) : Prop :=
+  r_due a < r_due b \/ (r_due a = r_due b /\ (r_id a < r_id b)%nat).
+
+(* [b] was already in the queue when [a] was dequeued *)
+Definition queued_at_pop_of (b a : poprec) : Prop := (r_born b <= r_idx a)%nat.
+
+Definition Inv2 (s : st) : Prop :=
+  Forall (fun a => (r_idx a < npops s)%nat) (pops (log s)) /\
+  Forall (fun a => Forall (fun b => (i_born b <= r_idx a)%nat -> rlt a b) (queue s)) (pops (log s)) /\
+  ForallOrdPairs (fun b a => queued_at_pop_of b a -> plt a b) (pops (log s)).
+
+Lemma inv2_init c0 : Inv2 (init c0).
+Proof. repeat split; simpl; constructor. Qed.
+
+Lemma inv2_prim s s' : Inv1 s -> Inv2 s -> prim s s' -> Inv2 s'.
+Proof.
+  intros [HS HF] (H1 & H2 & H3) HP. inversion HP; subst; clear HP.
+  - (* enqueue *) repeat split; simpl; try assumption.
+    rewrite Forall_forall in *. intros a Ha. apply Forall_forall. intros b Hb.
+    apply In_insert in Hb. destruct Hb as [->|Hb]; simpl.
+    + specialize (H1 a Ha). intro. lia.
+    + specialize (H2 a Ha). rewrite Forall_forall in H2. auto.
+  - destruct (cancel_id_fields s r) as (A & B & C & D & E & F & G).
+    unfold Inv2. rewrite cancel_id_pops, B, G. repeat split; assumption.
+  - repeat split; assumption.
+  - repeat split; assumption.
+  - repeat split; assumption.
+  - unfold Inv2. rewrite (add_log_pops s e H). repeat split; assumption.
+  - (* pop *) rewrite H in *. inversion HS as [|? ? HS' Hhd]; subst. inversion HF as [|? ? Hit HF']; subst.
+    unfold Inv2; simpl. repeat split.
+    + constructor; simpl; [lia|]. eapply Forall_impl; [|exact H1]. simpl; intros; lia.
+    + constructor; simpl.
+      * apply Forall_forall. intros b Hb _. rewrite Forall_forall in Hhd. exact (Hhd b Hb).
+      * eapply Forall_impl; [|exact H2]. simpl. intros a Ha. inversion Ha; assumption.
+    + constructor; [|assumption].
+      eapply Forall_impl; [|exact H2]. simpl. intros a Ha. inversion Ha; subst.
+      unfold queued_at_pop_of; simpl. exact H6.
+Qed.
+
+(* ---- B3: support for "due times are non-decreasing" ------------------ *)
+
+Definition Inv3 (s : st) : Prop :=
+  Forall (fun a => r_due a <= r_clk a /\ r_clk a <= clock s /\ (r_id a < next_id s)%nat) (pops (log s)) /\
+  Forall (fun a => Forall (fun b => (r_idx a < i_born b)%nat ->
+                                    r_clk a <= i_sclk b /\ (r_id a < i_id b)%nat) (queue s)) (pops (log s)) /\
+  ForallOrdPairs (fun b a => (r_idx a < r_born b)%nat ->
+                             r_clk a <= r_sclk b /\ (r_id a < r_id b)%nat) (pops (log s)).
+
+Lemma inv3_init c0 : Inv3 (init c0).
+Proof. repeat split; simpl; constructor. Qed.
+
+Lemma inv3_prim s s' : Inv1 s -> Inv3 s -> prim s s' -> Inv3 s'.
+Proof.
+  intros [HS HF] (H1 & H2 & H3) HP. inversion HP; subst; clear HP.
+  - (* enqueue *) repeat split; simpl; try assumption.
+    + eapply Forall_impl; [|exact H1]. simpl. intros a (A & B & C). repeat split; lia.
+    + rewrite Forall_forall in *. intros a Ha. apply Forall_forall. intros b Hb.
+      apply In_insert in Hb. destruct Hb as [->|Hb]; simpl.
+      * destruct (H1 a Ha) as (A & B & C). intro. split; lia.
+      * specialize (H2 a Ha). rewrite Forall_forall in H2. auto.
+  - destruct (cancel_id_fields s r) as (A & B & C & D & E & F & G).
+    unfold Inv3. rewrite cancel_id_pops, A, B, E. repeat split; assumption.
+  - repeat split; assumption.
+  - repeat split; simpl; try assumption.
+    eapply Forall_impl; [|exact H1]. simpl. intros a (A & B & C). repeat split; lia.
+  - repeat split; assumption.
+  - unfold Inv3. rewrite (add_log_pops s e H). repeat split; assumption.
+  - (* pop *) rewrite H in *. inversion HS as [|? ? HS' Hhd]; subst. inversion HF as [|? ? Hit HF']; subst.
+    pose proof (pop_clock_ge _ _ _ _ H0) as Hge. pose proof (pop_clock_due _ _ _ _ H0) as Hdue.
+    destruct Hit as (I1 & I2 & I3 & I4).
+    unfold Inv3; simpl. repeat split.
+    + constructor; simpl; [repeat split; lia|].
+      eapply Forall_impl; [|exact H1]. simpl. intros a (A & B & C). repeat split; lia.
+    + constructor; simpl.
+      * apply Forall_forall. intros b Hb Hlt. rewrite Forall_forall in HF'.
+        destruct (HF' b Hb) as (_ & _ & Hborn & _). lia.
+      * eapply Forall_impl; [|exact H2]. simpl. intros a Ha. inversion Ha; assumption.
+    + constructor; [|assumption].
+      eapply Forall_impl; [|exact H2]. simpl. intros a Ha. inversion Ha; subst. exact H6.
+Qed.
+
+(* ---- B4: the clock when an action runs ------------------------------- *)
+
+(* clock at invocation = max(clock before, due), unless the spin bump of
+   start() occurred at this dequeue (then due <= clock before and the clock is
+   clock before + 1 s / + 1 ms) *)
+Definition rec_ok (r : poprec) : Prop :=
+  if r_before r <? r_due r then r_clk r = r_due r /\ r_bumped r = false
+  else (r_bumped r = false /\ r_clk r = r_before r) \/
+       (r_bumped r = true /\ exists k, r_clk r = r_before r + bump_of k).
+
+Definition Inv4 (s : st) : Prop := Forall rec_ok (pops (log s)).
+
+Lemma inv4_prim s s' : Inv4 s -> prim s s' -> Inv4 s'.
+Proof.
+  unfold Inv4. intros H HP. inversion HP; subst; clear HP; try assumption.
+  - rewrite cancel_id_pops. assumption.
+  - rewrite (add_log_pops s e H0). assumption.
+  - simpl. constructor; [|assumption]. unfold rec_ok; simpl. exact H1.
+Qed.
+
+(* ---- B5: the clock never moves backwards ----------------------------- *)
+
+(* [mono c l]: reading the log [l] (newest first) backwards from a clock value
+   [c], every clock reading is <= the one that follows it in time *)
+Fixpoint mono (c : Z) (l : list event) : Prop :=
+  match l with
+  | [] => True
+  | EPop r :: t => r_clk r <= c /\ r_before r <= r_clk r /\ mono (r_before r) t
+  | ETick _ _ k :: t => k <= c /\ mono k t
+  | EClock k :: t => k <= c /\ mono k t
+  | _ :: t => mono c t
+  end.
+
+Lemma mono_weaken l : forall c c', c <= c' -> mono c l -> mono c' l.
+Proof.
+  induction l as [|e t IH]; intros c c' Hle H; simpl in *; [exact I|].
+  destruct e; try (eapply IH; eassumption); intuition lia.
+Qed.
+
+Definition Inv5 (s : st) : Prop := mono (clock s) (log s).
+
+Lemma inv5_prim s s' : Inv5 s -> prim s s' -> Inv5 s'.
+Proof.
+  unfold Inv5. intros H HP. inversion HP; subst; clear HP; simpl; try assumption.
+  - unfold cancel_id. destruct (r <? next_id s)%nat; simpl; assumption.
+  - eapply mono_weaken; eassumption.
+  - destruct e; simpl in *; try assumption; try tauto; subst; split; try lia; assumption.
+  - pose proof (pop_clock_ge _ _ _ _ H1). repeat split; try lia. assumption.
+Qed.
+
+(* all clock readings of a log, newest first *)
+Fixpoint readings (l : list event) : list Z :=
+  match l with
+  | [] => []
+  | EPop r :: t => r_clk r :: r_before r :: readings t
+  | ETick _ _ k :: t => k :: readings t
+  | EClock k :: t => k :: readings t
+  | _ :: t => readings t
+  end.
+
+Lemma mono_readings l : forall c, mono c l -> Forall (fun k => k <= c) (readings l) /\
+                                              StronglySorted Z.ge (readings l).
+Proof.
+  induction l as [|e t IH]; intros c H; simpl in *; [split; constructor|].
+  destruct e; simpl; try (apply IH; assumption).
+  - destruct H as (A & B & C). destruct (IH _ C) as [F S]. split.
+    + constructor; [assumption|]. constructor; [lia|]. eapply Forall_impl; [|exact F]. simpl; intros; lia.
+    + constructor; [constructor; [assumption|]|].
+      * eapply Forall_impl; [|exact F]. simpl; intros; lia.
+      * constructor; [lia|]. eapply Forall_impl; [|exact F]. simpl; intros; lia.
+  - destruct H as (A & C). destruct (IH _ C) as [F S]. split.
+    + constructor; [assumption|]. eapply Forall_impl; [|exact F]. simpl; intros; lia.
+    + constructor; [assumption|]. eapply Forall_impl; [|exact F]. simpl; intros; lia.
+  - destruct H as (A & C). destruct (IH _ C) as [F S]. split.
+    + constructor; [assumption|]. eapply Forall_impl; [|exact F]. simpl; intros; lia.
+    + constructor; [assumption|]. eapply Forall_impl; [|exact F]. simpl; intros; lia.
+Qed.
+
+(* ---- B6: cancelled actions never run --------------------------------- *)
+
+(* no action is run after its disposable was disposed (log newest first) *)
+Fixpoint no_run_after_cancel (l : list event) : Prop :=
+  match l with
+  | [] => True
+  | e :: older =>
+      match e with
+      | EPop r => r_ran r = true -> ~ In (ECancel (r_id r)) older
+      | _ => True
+      end /\ no_run_after_cancel older
+  end.
+
+Definition Inv6 (s : st) : Prop :=
+  (forall id, In (ECancel id) (log s) -> In id (cancelled s)) /\ no_run_after_cancel (log s).
+
+Lemma memb_false n l : memb n l = false -> ~ In n l.
+Proof.
+  unfold memb. intros H Hin. assert (existsb (Nat.eqb n) l = true).
+  { apply existsb_exists. exists n. split; [assumption | apply Nat.eqb_refl]. }
+  congruence.
+Qed.
+
+Lemma inv6_prim s s' : Inv6 s -> prim s s' -> Inv6 s'.
+Proof.
+  intros [H1 H2] HP. inversion HP; subst; clear HP; try (split; assumption).
+  - unfold cancel_id. destruct (r <? next_id s)%nat; [|split; assumption]. split; simpl.
+    + intros id [E|Hin]; [inversion E; auto | right; auto].
+    + split; [exact I | assumption].
+  - split; simpl.
+    + intros id [E|Hin]; [subst e; destruct H | auto].
+    + split; [|assumption]. destruct e; try exact I. destruct H.
+  - split; simpl.
+    + intros id [E|Hin]; [discriminate | auto].
+    + split; [|assumption]. intros Hran Hin. apply H1 in Hin.
+      apply Bool.negb_true_iff in Hran. apply memb_false in Hran. contradiction.
+Qed.
+
+(* ---- B7: conservation: every scheduled action is dequeued at most once,
+        and is either still queued or has been dequeued ------------------ *)
+From Coq Require Import Sorting.Permutation.
+
+Definition ids (s : st) : list nat := map i_id (queue s) ++ map r_id (pops (log s)).
+
+Definition Inv7 (s : st) : Prop :=
+  NoDup (ids s) /\ forall id, In id (ids s) <-> (id < next_id s)%nat.
+
+Lemma insert_perm x q : Permutation (insert x q) (x :: q).
+Proof.
+  induction q as [|y t IH]; simpl; [apply Permutation_refl|].
+  destruct (key_lt x y); [apply Permutation_refl|].
+  eapply Permutation_trans; [apply perm_skip, IH | apply perm_swap].
+Qed.
+
+Lemma inv7_prim s s' : Inv7 s -> prim s s' -> Inv7 s'.
+Proof.
+  intros [H1 H2] HP. inversion HP; subst; clear HP; try (split; assumption).
+  - assert (P : Permutation (ids (enqueue s due p)) (next_id s :: ids s)).
+    { unfold ids; simpl.
+      change (next_id s :: map i_id (queue s) ++ map r_id (pops (log s)))
+        with (map i_id (Item due (count s) (next_id s) (npops s) (clock s) p :: queue s)
+              ++ map r_id (pops (log s))).
+      apply Permutation_app_tail, Permutation_map, insert_perm. }
+    split.
+    + eapply Permutation_NoDup; [apply Permutation_sym, P|]. constructor; [|assumption].
+      intro Hin. apply H2 in Hin. lia.
+    + intro id. simpl. split.
+      * intro Hin. eapply Permutation_in in Hin; [|exact P]. destruct Hin as [<-|Hin]; [lia|].
+        apply H2 in Hin. lia.
+      * intro Hlt. eapply Permutation_in; [apply Permutation_sym, P|].
+        destruct (Nat.eq_dec id (next_id s)) as [->|Hne]; [left; reflexivity|].
+        right. apply H2. lia.
+  - destruct (cancel_id_fields s r) as (A & B & C & D & E & F & G).
+    unfold Inv7, ids. rewrite cancel_id_pops, B, E. split; assumption.
+  - unfold Inv7, ids. rewrite (add_log_pops s e H). split; assumption.
+  - assert (P : Permutation (ids s) (ids (pop_state s it q' newclk bumped))).
+    { unfold ids; simpl. rewrite H; simpl. apply Permutation_middle. }
+    split.
+    + eapply Permutation_NoDup; [exact P | assumption].
+    + intro id. simpl. rewrite <- H2. split; intro Hin.
+      * eapply Permutation_in; [apply Permutation_sym, P | assumption].
+      * eapply Permutation_in; [exact P | assumption].
+Qed.
+
+(* ---- all invariants together ----------------------------------------- *)
+
+Definition Inv (s : st) : Prop :=
+  Inv1 s /\ Inv2 s /\ Inv3 s /\ Inv4 s /\ Inv5 s /\ Inv6 s /\ Inv7 s.
+
+Lemma inv_init c0 : Inv (init c0).
+Proof.
+  repeat split; simpl; try constructor; try tauto; try lia.
+Qed.
+
+Lemma inv_prim s s' : Inv s -> prim s s' -> Inv s'.
+Proof.
+  intros (H1 & H2 & H3 & H4 & H5 & H6 & H7) HP. repeat split.
+  - apply (inv1_prim s s' H1 HP).
+  - apply (inv1_prim s s' H1 HP).
+  - apply (inv2_prim s s' H1 H2 HP).
+  - apply (inv2_prim s s' H1 H2 HP).
+  - apply (inv2_prim s s' H1 H2 HP).
+  - apply (inv3_prim s s' H1 H3 HP).
+  - apply (inv3_prim s s' H1 H3 HP).
+  - apply (inv3_prim s s' H1 H3 HP).
+  - apply (inv4_prim s s' H4 HP).
+  - apply (inv5_prim s s' H5 HP).
+  - apply (inv6_prim s s' H6 HP).
+  - apply (inv6_prim s s' H6 HP).
+  - apply (inv7_prim s s' H7 HP).
+  - apply (inv7_prim s s' H7 HP).
+  - apply (inv7_prim s s' H7 HP).
+Qed.
+
+Theorem inv_run c fuel c0 cs : Inv (state_of (run c fuel (init c0) cs)).
+Proof. apply (run_invariant Inv inv_prim). apply inv_init. Qed.
+
+Lemma inv_steps s s' : steps s s' -> Inv s -> Inv s'.
+Proof. apply (steps_inv Inv inv_prim). Qed.
+
+(* [r_idx] really is the number of items dequeued before *)
+Fixpoint desc (n : nat) : list nat := match n with O => [] | S k => k :: desc k end.
+
+Definition Inv8 (s : st) : Prop := map r_idx (pops (log s)) = desc (npops s).
+
+Lemma inv8_prim s s' : Inv8 s -> prim s s' -> Inv8 s'.
+Proof.
+  unfold Inv8. intros H HP. inversion HP; subst; clear HP; try assumption.
+  - destruct (cancel_id_fields s r) as (A & B & C & D & E & F & G). rewrite cancel_id_pops, G. assumption.
+  - rewrite (add_log_pops s e H0). assumption.
+  - simpl. rewrite H. reflexivity.
+Qed.
+
+Theorem inv8_run c fuel c0 cs : Inv8 (state_of (run c fuel (init c0) cs)).
+Proof. apply (run_invariant Inv8 inv8_prim). reflexivity. Qed.
+
+(* ------------------------------------------------------------------ *)
+(* Consequences for whole histories                                     *)
+
+Lemma FOP_combine {A} (R1 R2 R : A -> A -> Prop) (Q : A -> Prop) l :
+  ForallOrdPairs R1 l -> ForallOrdPairs R2 l -> Forall Q l ->
+  (forall b a, R1 b a -> R2 b a -> Q a -> Q b -> R b a) -> ForallOrdPairs R l.
+Proof.
+  intros H1 H2 HQ HR. induction l as [|x t IH]; [constructor|].
+  inversion H1; subst. inversion H2; subst. inversion HQ; subst.
+  constructor; [|apply IH; assumption].
+  rewrite Forall_forall in *. intros a Ha. apply HR; auto.
+Qed.
+
+Lemma FOP_filter {A} (R : A -> A -> Prop) (f : A -> bool) l :
+  ForallOrdPairs R l -> ForallOrdPairs R (filter f l).
+Proof.
+  induction 1 as [|x t Hx Ht IH]; simpl; [constructor|].
+  destruct (f x); [|assumption]. constructor; [|assumption].
+  rewrite Forall_forall in *. intros a Ha. apply filter_In in Ha. apply Hx. tauto.
+Qed.
+
+(* if nothing is ever scheduled in the past, the dequeue order is the
+   (due time, scheduling order) order: due times non-decreasing, FIFO among equals *)
+Lemma sorted_if_no_past s :
+  Inv s -> Forall (fun a => r_sclk a <= r_due a) (pops (log s)) ->
+  ForallOrdPairs (fun b a => plt a b) (pops (log s)).
+Proof.
+  intros (_ & (_ & _ & H2) & (H31 & _ & H33) & _) HF.
+  apply (FOP_combine _ _ _ (fun a => r_sclk a <= r_due a /\ r_due a <= r_clk a) _ H2 H33).
+  - rewrite Forall_forall in *. intros a Ha. split; [auto | apply H31; assumption].
+  - intros b a R1 R2 [Qa1 Qa2] [Qb1 Qb2]. unfold queued_at_pop_of in R1.
+    destruct (Nat.le_gt_cases (r_born b) (r_idx a)) as [Hle|Hgt]; [auto|].
+    destruct (R2 Hgt) as [Hc Hid]. unfold plt. lia.
+Qed.
+
+(* ================================================================== *)
+(* Part C.  Termination and the exact effect of start / advance_to      *)
+
+(* hereditarily: no periodic work *)
+Fixpoint noper_cmd (c : scmd) : bool :=
+  match c with
+  | SSched _ _ b => forallb noper_cmd b
+  | SPeriodic _ _ _ => false
+  | _ => true
+  end.
+Definition noper_pay (p : payload) : bool :=
+  match p with PAct _ b => forallb noper_cmd b | PPer _ _ => false end.
+Definition noper_t (c : tcmd) : bool := match c with TDo k => noper_cmd k | _ => true end.
+
+(* hereditarily: never stops the scheduler, never raises, no periodic work, and
+   (sl = false) never sleeps / (sl = true) sleeps only forwards *)
+Fixpoint calm_cmd (sl : bool) (c : scmd) : bool :=
+  match c with
+  | SSched _ _ b => forallb (calm_cmd sl) b
+  | SCancel _ | SNote _ | SPCancel _ => true
+  | SSleep d => sl && (0 <=? d)
+  | SHandled _ v => v
+  | SStop | SRaise _ | SPeriodic _ _ _ => false
+  end.
+Definition calm_pay (sl : bool) (p : payload) : bool :=
+  match p with PAct _ b => forallb (calm_cmd sl) b | PPer _ _ => false end.
+
+Lemma calm_noper sl c : calm_cmd sl c = true -> noper_cmd c = true.
+Proof.
+  revert c. fix IH 1. intros [w l b|r| |d|e|e v|n|p f s0|pid]; simpl; try reflexivity; try discriminate.
+  intro H. induction b as [|x t IHb]; simpl in *; [reflexivity|].
+  apply andb_true_iff in H. destruct H as [Hx Ht]. rewrite (IH x Hx). simpl. apply IHb. exact Ht.
+Qed.
+
+Lemma calm_noper_body sl b : forallb (calm_cmd sl) b = true -> forallb noper_cmd b = true.
+Proof.
+  induction b as [|x t IH]; simpl; [reflexivity|]. intro H. apply andb_true_iff in H. destruct H as [Hx Ht].
+  rewrite (calm_noper sl x Hx), (IH Ht). reflexivity.
+Qed.
+
+Lemma calm_noper_pay sl p : calm_pay sl p = true -> noper_pay p = true.
+Proof. destruct p; simpl; [apply calm_noper_body | discriminate]. Qed.
+
+Definition psize (p : payload) : nat := match p with PAct _ b => S (bsize b) | PPer _ _ => 1 end.
+Definition qsize (q : list item) : nat := list_sum (map (fun it => psize (i_pay it)) q).
+
+Lemma qsize_cons x q : qsize (x :: q) = (psize (i_pay x) + qsize q)%nat.
+Proof. reflexivity. Qed.
+
+Lemma qsize_insert x q : qsize (insert x q) = (psize (i_pay x) + qsize q)%nat.
+Proof.
+  induction q as [|y t IH]; simpl; [reflexivity|].
+  destruct (key_lt x y); simpl; [reflexivity|]. unfold qsize in *. simpl. rewrite IH. lia.
+Qed.
+
+Lemma Forall_insert (P : item -> Prop) x q : P x -> Forall P q -> Forall P (insert x q).
+Proof.
+  intros Hx Hq. apply Forall_forall. intros z Hz. apply In_insert in Hz.
+  destruct Hz as [->|Hz]; [assumption|]. rewrite Forall_forall in Hq. auto.
+Qed.
+
+(* --- frame properties -------------------------------------------------- *)
+
+Lemma dispose_per_fields s pid :
+  clock (dispose_per s pid) = clock s /\ queue (dispose_per s pid) = queue s /\
+  enabled (dispose_per s pid) = enabled s /\ npops (dispose_per s pid) = npops s /\
+  pops (log (dispose_per s pid)) = pops (log s).
+Proof.
+  unfold dispose_per. destruct (nth_error (pers s) pid) as [pi|]; [|repeat split].
+  destruct (p_disposed pi); [repeat split|].
+  match goal with |- context [cancel_id ?s0 ?r] =>
+    destruct (cancel_id_fields s0 r) as (A & B & C & D & E & F & G);
+    rewrite A, B, D, G, cancel_id_pops end.
+  repeat split.
+Qed.
+
+Lemma add_notes_fields ns : forall s,
+  clock (add_notes s ns) = clock s /\ queue (add_notes s ns) = queue s /\
+  enabled (add_notes s ns) = enabled s /\ npops (add_notes s ns) = npops s /\
+  pops (log (add_notes s ns)) = pops (log s).
+Proof.
+  induction ns as [|n t IH]; intro s; simpl; [repeat split|].
+  destruct (IH (add_log s (ENote n))) as (A & B & C & D & E). rewrite A, B, C, D, E. repeat split.
+Qed.
+
+(* no command, and no action body, dequeues anything *)
+Lemma exec_cmd_pops s c :
+  pops (log (bstate (exec_cmd s c))) = pops (log s) /\ npops (bstate (exec_cmd s c)) = npops s.
+Proof.
+  destruct c; simpl; try (split; reflexivity).
+  - destruct (cancel_id_fields s r) as (A & B & C & D & E & F & G). rewrite cancel_id_pops, G. split; reflexivity.
+  - destruct (d <? 0); simpl; split; reflexivity.
+  - destruct v; simpl; split; reflexivity.
+  - destruct (dispose_per_fields s pid) as (A & B & C & D & E). rewrite D, E. split; reflexivity.
+Qed.
+
+Lemma exec_body_pops b : forall s,
+  pops (log (bstate (exec_body s b))) = pops (log s) /\ npops (bstate (exec_body s b)) = npops s.
+Proof.
+  induction b as [|c t IH]; intro s; simpl; [split; reflexivity|].
+  pose proof (exec_cmd_pops s c) as [H1 H2].
+  destruct (exec_cmd s c) as [s'|e s']; simpl in *; [|split; assumption].
+  destruct (IH s') as [G1 G2]. rewrite G1, G2. split; assumption.
+Qed.
+
+(* --- fuel: commands without periodic work ------------------------------ *)
+
+Definition noper_q (q : list item) : Prop := Forall (fun it => noper_pay (i_pay it) = true) q.
+
+Lemma exec_cmd_noper s c :
+  noper_cmd c = true -> noper_q (queue s) ->
+  noper_q (queue (bstate (exec_cmd s c))) /\
+  (qsize (queue (bstate (exec_cmd s c))) <= qsize (queue s) + csize c)%nat.
+Proof.
+  intros Hc Hq. destruct c; simpl in *; try (split; [assumption | lia]).
+  - split; [apply Forall_insert; assumption|]. rewrite qsize_insert. simpl. unfold bsize. lia.
+  - destruct (cancel_id_fields s r) as (A & B & _). rewrite B. split; [assumption | lia].
+  - destruct (d <? 0); simpl; split; try assumption; lia.
+  - destruct v; simpl; split; try assumption; lia.
+  - discriminate.
+  - destruct (dispose_per_fields s pid) as (A & B & _). rewrite B. split; [assumption | lia].
+Qed.
+
+Lemma exec_body_noper b : forall s,
+  forallb noper_cmd b = true -> noper_q (queue s) ->
+  noper_q (queue (bstate (exec_body s b))) /\
+  (qsize (queue (bstate (exec_body s b))) <= qsize (queue s) + bsize b)%nat.
+Proof.
+  induction b as [|c t IH]; intros s Hb Hq; simpl in *; [split; [assumption | lia]|].
+  apply andb_true_iff in Hb. destruct Hb as [Hc Ht].
+  destruct (exec_cmd_noper s c Hc Hq) as [H1 H2].
+  unfold bsize in *; simpl.
+  destruct (exec_cmd s c) as [s'|e s']; simpl in *; [|split; [assumption | lia]].
+  destruct (IH s' Ht H1) as [G1 G2]. split; [assumption | lia].
+Qed.
+
+Lemma run_item_noper s it q' newclk bumped :
+  queue s = it :: q' -> noper_q (queue s) ->
+  noper_q (queue (bstate (run_item s it q' newclk bumped))) /\
+  (S (qsize (queue (bstate (run_item s it q' newclk bumped)))) <= qsize (queue s))%nat.
+Proof.
+  intros Hq Hn. rewrite Hq in *. inversion Hn as [|? ? Hit Hn']; subst.
+  rewrite qsize_cons.
+  unfold run_item. destruct (negb (memb (i_id it) (cancelled s))); simpl.
+  - destruct (i_pay it) as [l b|pid stt] eqn:Hp; simpl in Hit; [|discriminate]. simpl.
+    match goal with |- context [exec_body ?s0 b] =>
+      destruct (exec_body_noper b s0 Hit) as [G1 G2]; [simpl; assumption|] end.
+    simpl in G2. split; [assumption|]. lia.
+  - split; [assumption|]. destruct (i_pay it); simpl; lia.
+Qed.
+
+Definition returned (o : outcome) (s' : st) : Prop :=
+  o = Finished s' \/ exists e, o = Raised e s'.
+
+Lemma start_loop_returns c fuel : c_prop_bump c = false -> forall s sp,
+  noper_q (queue s) -> (qsize (queue s) <= fuel)%nat ->
+  exists s', returned (start_loop c fuel s sp) s' /\ noper_q (queue s') /\
+             (qsize (queue s') <= qsize (queue s))%nat.
+Proof.
+  intro Hc. induction fuel as [|fuel IH]; intros s sp Hn Hf; simpl.
+  - destruct (negb (enabled s)); [exists (set_enabled s false); repeat split; auto; left; reflexivity|].
+    destruct (queue s) as [|it q'] eqn:Hq; [exists (set_enabled s false); simpl; rewrite Hq; repeat split; auto; left; reflexivity|].
+    exfalso. unfold qsize in Hf. simpl in Hf. destruct (i_pay it); simpl in Hf; lia.
+  - destruct (negb (enabled s)); [exists (set_enabled s false); repeat split; auto; left; reflexivity|].
+    destruct (queue s) as [|it q'] eqn:Hq; [exists (set_enabled s false); simpl; rewrite Hq; repeat split; auto; left; reflexivity|].
+    assert (Hstep : forall newclk bumped sp',
+      exists s', returned (match run_item s it q' newclk bumped with
+                           | BOk s' => start_loop c fuel s' sp'
+                           | BRaise e s' => Raised e s' end) s' /\ noper_q (queue s') /\
+                 (qsize (queue s') <= qsize (it :: q'))%nat).
+    { intros newclk bumped sp'.
+      assert (Hn' : noper_q (queue s)) by (rewrite Hq; exact Hn).
+      destruct (run_item_noper s it q' newclk bumped Hq Hn') as [G1 G2]. rewrite Hq in G2.
+      destruct (run_item s it q' newclk bumped) as [s1|e s1]; simpl in *.
+      - destruct (IH s1 sp' G1) as (s' & R & N & L); [lia|]. exists s'. repeat split; auto. lia.
+      - exists s1. repeat split; auto; [right; exists e; reflexivity | lia]. }
+    destruct (clock s <? i_due it); [apply Hstep|].
+    destruct (MAX_SPINNING <? sp)%nat; [|apply Hstep].
+    destruct (c_kind c); [apply Hstep|]. rewrite Hc. apply Hstep.
+Qed.
+
+Lemma start_returns c fuel s : c_prop_bump c = false ->
+  noper_q (queue s) -> (qsize (queue s) <= fuel)%nat ->
+  exists s', returned (start c fuel s) s' /\ noper_q (queue s') /\ (qsize (queue s') <= qsize (queue s))%nat.
+Proof.
+  intros Hc Hn Hf. unfold start. destruct (enabled s).
+  - exists s. repeat split; auto. left; reflexivity.
+  - exact (start_loop_returns c fuel Hc (set_enabled s true) 0%nat Hn Hf).
+Qed.
+
+Lemma finish_adv_returns s t : exists s', finish_adv s t = Finished s' /\ queue s' = queue s.
+Proof. unfold finish_adv. eexists. split; [reflexivity|]. destruct (clock s <? t); reflexivity. Qed.
+
+Lemma advance_loop_returns fuel t : forall s,
+  noper_q (queue s) -> (qsize (queue s) <= fuel)%nat ->
+  exists s', returned (advance_loop fuel s t) s' /\ noper_q (queue s') /\
+             (qsize (queue s') <= qsize (queue s))%nat.
+Proof.
+  assert (Hfin : forall s, noper_q (queue s) ->
+     exists s', returned (finish_adv s t) s' /\ noper_q (queue s') /\ (qsize (queue s') <= qsize (queue s))%nat).
+  { intros s Hn. destruct (finish_adv_returns s t) as (s' & E & Q). exists s'. rewrite Q.
+    repeat split; auto. left; assumption. }
+  induction fuel as [|fuel IH]; intros s Hn Hf; simpl.
+  - destruct (negb (enabled s)); [apply Hfin; assumption|].
+    destruct (queue s) as [|it q'] eqn:Hq; [rewrite <- Hq; apply Hfin; rewrite Hq; assumption|].
+    destruct (t <? i_due it); [rewrite <- Hq; apply Hfin; rewrite Hq; assumption|].
+    exfalso. unfold qsize in Hf. simpl in Hf. destruct (i_pay it); simpl in Hf; lia.
+  - destruct (negb (enabled s)); [apply Hfin; assumption|].
+    destruct (queue s) as [|it q'] eqn:Hq; [rewrite <- Hq; apply Hfin; rewrite Hq; assumption|].
+    destruct (t <? i_due it); [rewrite <- Hq; apply Hfin; rewrite Hq; assumption|].
+    rewrite <- Hq in Hn.
+    destruct (run_item_noper s it q' (if clock s <? i_due it then i_due it else clock s) false Hq Hn) as [G1 G2].
+    rewrite Hq in G2.
+    destruct (run_item s it q' _ false) as [s1|e s1]; simpl in *.
+    + destruct (IH s1 G1) as (s' & R & N & L); [lia|]. exists s'. repeat split; auto. lia.
+    + exists s1. repeat split; auto; [right; exists e; reflexivity | lia].
+Qed.
+
+Lemma advance_to_returns fuel s t :
+  noper_q (queue s) -> (qsize (queue s) <= fuel)%nat ->
+  exists s', returned (advance_to fuel s t) s' /\ noper_q (queue s') /\ (qsize (queue s') <= qsize (queue s))%nat.
+Proof.
+  intros Hn Hf. unfold advance_to.
+  destruct (t <? clock s); [exists s; repeat split; auto; right; exists AOOR; reflexivity|].
+  destruct ((clock s =? t) || enabled s); [exists s; repeat split; auto; left; reflexivity|].
+  exact (advance_loop_returns fuel t (set_enabled s true) Hn Hf).
+Qed.
+
+Lemma step_t_returns c fuel s cmd : c_prop_bump c = false ->
+  noper_t cmd = true -> noper_q (queue s) -> (qsize (queue s) + tsize cmd <= fuel)%nat ->
+  exists s', returned (step_t c fuel s cmd) s' /\ noper_q (queue s') /\
+             (qsize (queue s') <= qsize (queue s) + tsize cmd)%nat.
+Proof.
+  intros Hc Ht Hn Hf. destruct cmd as [k| | |t|d]; simpl in *.
+  - destruct (exec_cmd_noper s k Ht Hn) as [G1 G2].
+    destruct (exec_cmd s k) as [s'|e s']; simpl in *; exists s'; repeat split; auto;
+      [left; reflexivity | right; exists e; reflexivity].
+  - destruct (start_returns c fuel s Hc Hn) as (s' & R & N & L); [lia|]. exists s'. repeat split; auto. lia.
+  - set (s3 := silent (silent (silent s 100000000) 200000000) 1000000000).
+    assert (N3 : noper_q (queue s3)).
+    { unfold s3, silent; simpl. repeat apply Forall_insert; auto. }
+    assert (Q3 : qsize (queue s3) = (3 + qsize (queue s))%nat).
+    { unfold s3, silent; simpl. rewrite !qsize_insert. simpl. lia. }
+    destruct (start_returns c fuel s3 Hc N3) as (s' & R & N & L); [lia|]. exists s'. repeat split; auto. lia.
+  - destruct (advance_to_returns fuel s t Hn) as (s' & R & N & L); [lia|]. exists s'. repeat split; auto. lia.
+  - destruct (advance_to_returns fuel s (clock s + d) Hn) as (s' & R & N & L); [lia|]. exists s'. repeat split; auto. lia.
+Qed.
+
+(* Every history without periodic work terminates: neither the fuel (taken as
+   the number of actions the history can enqueue) runs out nor a deadlock
+   occurs, on numeric and datetime clocks alike. *)
+Theorem run_terminates c fuel : c_prop_bump c = false -> forall h s,
+  forallb noper_t h = true -> noper_q (queue s) -> (qsize (queue s) + hsize h <= fuel)%nat ->
+  exists s', run c fuel s h = RDone s'.
+Proof.
+  intro Hc. induction h as [|cmd t IH]; intros s Hh Hn Hf; simpl; [eexists; reflexivity|].
+  simpl in Hh. apply andb_true_iff in Hh. destruct Hh as [H1 H2].
+  unfold hsize in *. simpl in Hf.
+  destruct (step_t_returns c fuel s cmd Hc H1 Hn) as (s' & R & N & L); [lia|].
+  destruct R as [->|[e ->]]; apply IH; simpl; auto; lia.
+Qed.
+
+
+(* --- calm actions: exact effect of start and advance_to ---------------- *)
+
+Definition calm_q (sl : bool) (q : list item) : Prop := Forall (fun it => calm_pay sl (i_pay it) = true) q.
+
+Lemma calm_q_noper sl q : calm_q sl q -> noper_q q.
+Proof. apply Forall_impl. intros it. apply calm_noper_pay. Qed.
+
+Lemma exec_cmd_calm sl s c :
+  calm_cmd sl c = true -> calm_q sl (queue s) ->
+  exists s', exec_cmd s c = BOk s' /\ enabled s' = enabled s /\ clock s <= clock s' /\
+             (sl = false -> clock s' = clock s) /\ calm_q sl (queue s').
+Proof.
+  intros Hc Hq. destruct c; simpl in *; try discriminate.
+  - eexists. split; [reflexivity|]. simpl. repeat split; try lia. apply Forall_insert; assumption.
+  - eexists. split; [reflexivity|]. destruct (cancel_id_fields s r) as (A & B & C & D & _).
+    rewrite A, B, D. repeat split; try lia; try assumption.
+  - apply andb_true_iff in Hc. destruct Hc as [-> Hd]. apply Z.leb_le in Hd.
+    assert (E : d <? 0 = false) by (apply Z.ltb_ge; lia). rewrite E.
+    eexists. split; [reflexivity|]. simpl. repeat split; try lia; try assumption; try discriminate.
+  - subst v. eexists. split; [reflexivity|]. simpl. repeat split; try lia; try assumption.
+  - eexists. split; [reflexivity|]. simpl. repeat split; try lia; try assumption.
+  - eexists. split; [reflexivity|]. destruct (dispose_per_fields s pid) as (A & B & C & _).
+    rewrite A, B, C. repeat split; try lia; try assumption.
+Qed.
+
+Lemma exec_body_calm sl b : forall s,
+  forallb (calm_cmd sl) b = true -> calm_q sl (queue s) ->
+  exists s', exec_body s b = BOk s' /\ enabled s' = enabled s /\ clock s <= clock s' /\
+             (sl = false -> clock s' = clock s) /\ calm_q sl (queue s').
+Proof.
+  induction b as [|c t IH]; intros s Hb Hq; simpl in *.
+  - exists s. repeat split; auto; lia.
+  - apply andb_true_iff in Hb. destruct Hb as [Hc Ht].
+    destruct (exec_cmd_calm sl s c Hc Hq) as (s1 & E1 & A1 & B1 & C1 & D1). rewrite E1.
+    destruct (IH s1 Ht D1) as (s2 & E2 & A2 & B2 & C2 & D2). exists s2.
+    repeat split; auto; try congruence; try lia. intro Hs. rewrite (C2 Hs). auto.
+Qed.
+
+Lemma run_item_calm sl s it q' newclk bumped :
+  queue s = it :: q' -> calm_q sl (queue s) ->
+  exists s', run_item s it q' newclk bumped = BOk s' /\ enabled s' = enabled s /\ newclk <= clock s' /\
+             (sl = false -> clock s' = newclk) /\ calm_q sl (queue s') /\
+             pops (log s') = PopRec (i_id it) (label_of (i_pay it)) (i_due it) (i_sclk it) (clock s) newclk
+                                    (i_born it) (npops s) bumped (negb (memb (i_id it) (cancelled s)))
+                             :: pops (log s) /\
+             npops s' = S (npops s).
+Proof.
+  intros Hq Hc. rewrite Hq in Hc. inversion Hc as [|? ? Hit Hc']; subst.
+  unfold run_item. destruct (negb (memb (i_id it) (cancelled s))) eqn:Hran.
+  - destruct (i_pay it) as [l b|pid stt] eqn:Hp; simpl in Hit; [|discriminate]. simpl.
+    match goal with |- context [exec_body ?s0 b] =>
+      destruct (exec_body_calm sl b s0 Hit) as (s' & E & A & B & C & D); [simpl; assumption|];
+      pose proof (exec_body_pops b s0) as [P1 P2] end.
+    rewrite E in *. simpl in *. exists s'. repeat split; auto.
+  - eexists. split; [reflexivity|]. simpl. repeat split; auto; lia.
+Qed.
+
+(* start() on calm work returns normally with an empty queue *)
+Lemma start_loop_calm sl c fuel : c_prop_bump c = false -> forall s sp,
+  calm_q sl (queue s) -> (qsize (queue s) <= fuel)%nat ->
+  exists s', start_loop c fuel s sp = Finished s' /\ enabled s' = false /\
+             (enabled s = true -> queue s' = []).
+Proof.
+  intro Hc. induction fuel as [|fuel IH]; intros s sp Hn Hf; simpl.
+  - destruct (enabled s) eqn:He; simpl; [|eexists; split; [reflexivity|]; split; [reflexivity | discriminate]].
+    destruct (queue s) as [|it q'] eqn:Hq; [eexists; split; [reflexivity|]; simpl; auto|].
+    exfalso. rewrite qsize_cons in Hf. destruct (i_pay it); simpl in Hf; lia.
+  - destruct (enabled s) eqn:He; simpl; [|eexists; split; [reflexivity|]; split; [reflexivity | discriminate]].
+    destruct (queue s) as [|it q'] eqn:Hq; [eexists; split; [reflexivity|]; simpl; auto|].
+    assert (Hstep : forall newclk bumped sp',
+      exists s', match run_item s it q' newclk bumped with
+                 | BOk s' => start_loop c fuel s' sp'
+                 | BRaise e s' => Raised e s' end = Finished s' /\ enabled s' = false /\
+                 (true = true -> queue s' = [])).
+    { intros newclk bumped sp'.
+      assert (Hn' : calm_q sl (queue s)) by (rewrite Hq; exact Hn).
+      destruct (run_item_calm sl s it q' newclk bumped Hq Hn') as (s1 & E & A & B & C & D & _).
+      pose proof (run_item_noper s it q' newclk bumped Hq (calm_q_noper _ _ Hn')) as [_ G2].
+      rewrite E in *. simpl in G2. rewrite Hq in G2.
+      destruct (IH s1 sp' D) as (s' & R & N & L); [lia|]. exists s'. repeat split; auto.
+      intros _. apply L. congruence. }
+    destruct (clock s <? i_due it); [apply Hstep|].
+    destruct (MAX_SPINNING <? sp)%nat; [|apply Hstep].
+    destruct (c_kind c); [apply Hstep|]. rewrite Hc. apply Hstep.
+Qed.
+
+Theorem start_calm sl c fuel s : c_prop_bump c = false ->
+  enabled s = false -> calm_q sl (queue s) -> (qsize (queue s) <= fuel)%nat ->
+  exists s', start c fuel s = Finished s' /\ enabled s' = false /\ queue s' = [].
+Proof.
+  intros Hc He Hn Hf. unfold start. rewrite He.
+  destruct (start_loop_calm sl c fuel Hc (set_enabled s true) 0%nat Hn Hf) as (s' & E & A & B).
+  exists s'. repeat split; auto.
+Qed.
+
+(* what advance_to adds to the log: only items due at or before the target,
+   never with a spin bump *)
+Definition new_pops_ok (s s' : st) (t : Z) : Prop :=
+  forall r, In r (pops (log s')) ->
+    In r (pops (log s)) \/ (r_due r <= t /\ r_bumped r = false /\ (npops s <= r_idx r)%nat).
+
+Lemma advance_loop_calm sl fuel t : forall s,
+  Inv1 s -> enabled s = true -> calm_q sl (queue s) -> (qsize (queue s) <= fuel)%nat ->
+  exists s', advance_loop fuel s t = Finished s' /\ enabled s' = false /\
+             Forall (fun it => t < i_due it) (queue s') /\
+             t <= clock s' /\ (sl = false -> clock s <= t -> clock s' = t) /\
+             calm_q sl (queue s') /\ new_pops_ok s s' t.
+Proof.
+  assert (Hfin : forall s, calm_q sl (queue s) -> Forall (fun it => t < i_due it) (queue s) ->
+    exists s', finish_adv s t = Finished s' /\ enabled s' = false /\
+               Forall (fun it => t < i_due it) (queue s') /\
+               t <= clock s' /\ (sl = false -> clock s <= t -> clock s' = t) /\
+               calm_q sl (queue s') /\ new_pops_ok s s' t).
+  { intros s Hc Hall. unfold finish_adv. eexists. split; [reflexivity|].
+    destruct (clock s <? t) eqn:E; simpl.
+    - apply Z.ltb_lt in E. repeat split; auto; try lia. intros r Hr. left. exact Hr.
+    - apply Z.ltb_ge in E. repeat split; auto; try lia. intros r Hr. left. exact Hr. }
+  induction fuel as [|fuel IH]; intros s HI He Hc Hf; simpl; rewrite He; simpl.
+  - destruct (queue s) as [|it q'] eqn:Hq.
+    + apply Hfin; rewrite Hq; [assumption | constructor].
+    + destruct (t <? i_due it) eqn:Et.
+      * apply Hfin; rewrite Hq; [assumption|]. destruct HI as [HS _]. rewrite Hq in HS.
+        inversion HS as [|? ? _ Hhd]; subst. apply Z.ltb_lt in Et. constructor; [assumption|].
+        eapply Forall_impl; [|exact Hhd]. unfold klt. simpl. intros; lia.
+      * exfalso. rewrite qsize_cons in Hf. destruct (i_pay it); simpl in Hf; lia.
+  - destruct (queue s) as [|it q'] eqn:Hq.
+    + apply Hfin; rewrite Hq; [assumption | constructor].
+    + destruct (t <? i_due it) eqn:Et.
+      * apply Hfin; rewrite Hq; [assumption|]. destruct HI as [HS _]. rewrite Hq in HS.
+        inversion HS as [|? ? _ Hhd]; subst. apply Z.ltb_lt in Et. constructor; [assumption|].
+        eapply Forall_impl; [|exact Hhd]. unfold klt. simpl. intros; lia.
+      * apply Z.ltb_ge in Et.
+        set (newclk := if clock s <? i_due it then i_due it else clock s).
+        assert (Hc' : calm_q sl (queue s)) by (rewrite Hq; exact Hc).
+        assert (Hpc : pop_clock_ok s it newclk false).
+        { unfold pop_clock_ok, newclk. destruct (clock s <? i_due it); auto. }
+        destruct (run_item_calm sl s it q' newclk false Hq Hc') as (s1 & E & A & B & C & D & P & NP).
+        pose proof (run_item_noper s it q' newclk false Hq (calm_q_noper _ _ Hc')) as [_ G2].
+        pose proof (run_item_steps s it q' newclk false Hq Hpc) as Hsteps.
+        rewrite E in *. simpl in G2, Hsteps. rewrite Hq in G2.
+        assert (HI1 : Inv1 s1) by (eapply (steps_inv Inv1 inv1_prim); eassumption).
+        destruct (IH s1 HI1) as (s' & R & N & L & T1 & T2 & Cq & NPO); [congruence | assumption | lia |].
+        exists s'. repeat split; auto.
+        -- intros Hsl Hle. apply T2; [assumption|]. rewrite (C Hsl). unfold newclk.
+           destruct (clock s <? i_due it); lia.
+        -- intros r Hr. destruct (NPO r Hr) as [Hold|(X & Y & Z)].
+           ++ rewrite P in Hold. destruct Hold as [<-|Hold]; [|left; assumption].
+              right. simpl. repeat split; auto; lia.
+           ++ right. repeat split; auto. lia.
+Qed.
+
+(* advance_to(t) with t later than the clock, on a stopped scheduler with calm
+   work: returns; everything left in the queue is due after t; everything it
+   dequeued was due at or before t; the clock ends at t (or later if an action
+   slept past t). *)
+Theorem advance_to_calm sl fuel s t :
+  Inv1 s -> enabled s = false -> clock s < t -> calm_q sl (queue s) -> (qsize (queue s) <= fuel)%nat ->
+  exists s', advance_to fuel s t = Finished s' /\ enabled s' = false /\
+             Forall (fun it => t < i_due it) (queue s') /\
+             t <= clock s' /\ (sl = false -> clock s' = t) /\
+             calm_q sl (queue s') /\ new_pops_ok s s' t.
+Proof.
+  intros HI He Hlt Hc Hf. unfold advance_to.
+  assert (E1 : t <? clock s = false) by (apply Z.ltb_ge; lia).
+  assert (E2 : clock s =? t = false) by (apply Z.eqb_neq; lia).
+  rewrite E1, E2, He. simpl.
+  destruct (advance_loop_calm sl fuel t (set_enabled s true)) as (s' & R & N & L & T1 & T2 & Cq & NPO); auto.
+  exists s'. repeat split; auto. intro Hsl. apply T2; [assumption|]. simpl. lia.
+Qed.
